@@ -78,6 +78,19 @@ SCENARIOS = {
         fragment BB on Bot { model }
         query GetActor { actor @mixin(from: "pyvc_mixins", import: "OpFieldMixin") { __typename ... on User { ...UB } ... on Bot { ...BB } } }
     """, {"get_actor": {"GetActorActorUser": ["OpFieldMixin", "UB"], "GetActorActorBot": ["OpFieldMixin", "BB"]}}),
+    "plain-fragment-spread-inside-an-unpacked-fragment-keeps-its-class": ("""
+        fragment UserBase on User { name }
+        fragment UserDetails on User { ...UserBase ... on Node { id } }
+        query GetUser { me { ...UserDetails } }
+        query GetMeToo { me { ...UserBase } }
+    """, {"get_me_too": {"GetMeTooMe": ["UserBase"]}, "fragments": {"UserBase": ["BaseModel"]}}),
+    "fragment-used-below-a-nested-field-of-a-sibling-fragment-is-still-a-base": ("""
+        fragment UserName on User { name }
+        fragment UserWithFriend on User { id friend { ...UserName } }
+        fragment Child on User { id ...UserName }
+        query Q { me { ...UserWithFriend ...UserName } }
+        query Inherit { me { ...Child ...UserName } }
+    """, {"q": {"QMe": ["UserWithFriend", "UserName"]}, "inherit": {"InheritMe": ["Child", "UserName"]}}),
 }
 
 
